@@ -401,8 +401,11 @@ def bounded_strategy(draw, ctx):
             poles.append({"type": "drude", "wp": float("%.6g" % (u["wp"] * math.sqrt(k))), "g": u["g"]})
     # a few media that the documented isolated-pole rule (w0 dt < 2) makes placement reject: they exercise the
     # "accepted" premise from the other side (a tree that stops rejecting them lets them through to the run)
-    if draw(st.sampled_from(range(16))) == 0:
-        poles[0] = {"type": "lorentz", "w": draw(st.sampled_from([2.0, 2.6])), "g": poles[0]["g"], "de": 1.0}
+    # (cheap: they never reach the 10^4-step run on a tree that rejects them). Damping on both sides of g dt = 2,
+    # since an "overdamped poles need no w0 dt rule" shortcut is a plausible wrong refinement of that guard.
+    if draw(st.sampled_from(range(8))) == 0:
+        poles[0] = {"type": "lorentz", "w": draw(st.sampled_from([2.0, 2.6])),
+                    "g": draw(st.sampled_from([0.0, 0.5, 2.0, 3.0])), "de": 1.0}
     mask = None
     if draw(st.integers(0, 2)) == 0:
         lo, hi = [], []
